@@ -15,7 +15,7 @@ CLAIMED = {
         ref='DESIGN.md 5 (C02)'),
     'C03': dict(
         text="Deductive proof over the real text of run_defers_to_label, break_to_label, and the lifted arms Stmt::Defer, Stmt::Continue, the start and the end of Expr::Block, the Expr::While arm and the failing branch of Expr::Propagate (`.try`), with ghost state (the sequence of expressions whose code has been emitted; the set of labels that may be jumped to): a reached defer is recorded last in the frame of its block and does not run then; when a block is left through its end the defers of its frame run there (before the jump to the exit block, which runs none), last reached first, exactly once, and the frame is gone; a break / return / failing `.try` runs the defers reached so far in the block it names and in every block nested in it, innermost first, `continue` those of the blocks inside the loop body, and the frame stack is left as it was; every labelled block and every loop has its own frame while its body is compiled (frame invariant), so unwinding stops at the construct being left and never runs defers of blocks that are not being left -- for frame stacks of any depth and any number of defers.",
-        note='Partial. Three genuine defects were found on the pinned tree and repaired in /repo (break out of a loop ran all enclosing defers; continue ran none; a break to a block ran also the defers of that block that were never reached). Assumed: the recursive compile_expr emits the code of its expression at the insertion point and keeps its own pushes and pops balanced (stub); break / continue name only enclosing labels (hir); a deferred expression does not jump out of itself; Cranelift control flow shims. Not covered: the `return` call site, hir::lower_defer / resolve_last_label, that the emitted code of a defer runs once at run time when blocks are re-entered (loops re-run their body code, which is the intended meaning).',
+        note='Partial. Four genuine defects were found on the pinned tree and repaired in /repo (break out of a loop ran all enclosing defers; continue ran none; a break to a block ran also the defers of that block that were never reached; a break inside a while condition ran all enclosing defers). Assumed: the recursive compile_expr emits the code of its expression at the insertion point and keeps its own pushes and pops balanced (stub); break / continue name only enclosing labels (hir); a deferred expression does not jump out of itself; Cranelift control flow shims. Not covered: the `return` call site, hir::lower_defer / resolve_last_label, that the emitted code of a defer runs once at run time when blocks are re-entered (loops re-run their body code, which is the intended meaning).',
         ref='DESIGN.md 5 (C03)'),
     'C08': dict(
         text='Deductive proof over the real text of compile_num_binary, cast_num, cast_ty_to_cranelift, NumberType::bit_width and the finalize_int closure: for every numeric type pair and every operand bit pattern the emitted instruction sequence denotes the two\'s-complement result the statement prescribes.',
